@@ -311,6 +311,8 @@ def mnemonic_list(draw, n, section=None, collide=True):
             m = draw(st.sampled_from(DEFAULT_NAMES[section]))
             if draw(st.booleans()):
                 m = case_variant(draw, m)
+        elif k == 9 and roll(draw, 3) == 0:
+            m = draw(st.sampled_from(["GR:1", "RUN:2", "A:10"]))  # a name of its own that merely looks numbered
         else:
             m = draw(base)
         out.append(m)
